@@ -93,7 +93,9 @@ def rand_base_graph(rng, names_pool, nmax=6, max_order=3, p_ring=0.3, p_zero=0.1
 
 # ---------------------------------------------------------------- fragments with descriptors
 AA_SKELETONS = ['C', 'CC', 'COC', 'CC(C)C', 'C=C', 'CCO', 'N', 'O', 'CC(=O)O', 'C1CC1', 'CCN', 'CS', 'c1ccccc1', 'c1ccncc1',
-                'C(F)C', 'CCl', 'C#C', 'CC(C)(C)C', 'C(F)(Cl)C', 'CC(C)(C(=O)OC)', 'C(C)(O)']
+                'C(F)C', 'CCl', 'C#C', 'CC(C)(C)C', 'C(F)(Cl)C', 'CC(C)(C(=O)OC)', 'C(C)(O)',
+                # an upper-case atom directly before an aromatic one: the two letters spell an element (Sc, Cs)
+                'CSc1ccccc1', 'CSc1ccccc1CO', 'OCSc1ccncc1C', 'CC(Sc1ccccc1)C', 'c1ccccc1SC']
 CG_SKELETONS = ['[#A]', '[#A][#B]', '[#A][#B][#C]', '[#A]([#B])[#C]', '[#A]1[#B][#C]1', '[#X]=[#Y]', '[#P]([#Q])([#R])',
                 '[#P]([#Q])([#R])[#S]']
 
